@@ -28,6 +28,11 @@ CHECKS = {
         text="Tensor.tla enumerates all shapes <= 3^3 (quick) / 4^3 (thorough) x modes and proves that the documented unfolding layout meets the contract (shape, columns are mode-n fibres in mode order, each fibre once). Each case is run through tensor_unfold/tensor_fold with a label tensor in four memory layouts (C, Fortran, transposed view, strided); TLC checks the contract on the returned label matrix (column order is DRIFT only), fold(unfold)=T, norm and moduli. rgb<->quat on uint8-range / dyadic [0,1] / binary / arbitrary(no clip) data for all small H,W and real parts, split/stack, psnr/relative_error zero-distance consistency on equal/unequal integer arrays, and mean SNR over 64 seeds (statistical, 0.5 dB) are recorded as integer events and decided by TLC.",
         note="Trusted: label encoding (dims <= 9), harness float->int scaling (exact, dyadic). relative_error with zero reference is documented to return inf and is outside the claim. SNR clause is statistical.",
         design_ref="5/C18"),
+    "C15": dict(
+        technique="TLC-computed norms on the exact Pythagorean family (Norms.tla) replayed into every norm spelling; NormsTrace.tla bounds measured margins of axioms/inequalities on float inputs",
+        text="Norms.tla enumerates all matrices of shapes <= 2x2, 1x3, 3x1 (and 2x3, 3x2 thorough) over quaternions of integer modulus x scalings c in {1,-2,3}; TLC computes the 1-, inf- and squared Frobenius norms from the definitions and checks homogeneity, definiteness, transpose duality and cross-norm inequalities as invariants. Each state is replayed through matrix_norm (every ord spelling), the induced norms, all eleven Frobenius entry points and the spectral norm (vs complex-adjoint oracle); exact families U diag(s) V^H and Hermitian spectra with negative dominant eigenvalue pin the spectral norm. Random float matrices: triangle, sub-multiplicativity, homogeneity, 2<=F<=sqrt(rank)2, 2^2<=1*inf, entry-point agreement as integer margins bounded by TLC. Unknown ord values must raise.",
+        note="Trusted: oracle singular values (numpy SVD of the complex adjoint), harness margins. Bounds: 4 ulp Frobenius, 256 units spectral/inequalities.",
+        design_ref="5/C15"),
 }
 
 NOT_YET = "check not built yet in this round; see DESIGN.md section 5"
